@@ -144,6 +144,17 @@ func c04Run(t *testing.T, in c04Input) c04Impl {
 	}
 	reports, err := node.Plugin.Reports(context.Background(), 7, raw)
 	calls := node.Enc.Take()
+	// … and builds reports for yet another outcome afterwards: what was returned above must stay what it was
+	if len(in.Agreed) > 0 {
+		later := ocr2keepersv3.AutomationOutcome{AgreedPerformables: fromJCRs(in.Agreed[len(in.Agreed)/2:])}
+		for i := range later.AgreedPerformables {
+			later.AgreedPerformables[i].GasAllocated++
+		}
+		if lr, err := later.Encode(); err == nil {
+			node.Plugin.Reports(context.Background(), 8, lr)
+			node.Enc.Take()
+		}
+	}
 	impl := c04Impl{NReports: len(reports), Reports: [][]JCR{}, Encoded: [][]JCR{}}
 	if err != nil {
 		impl.Err = err.Error()
@@ -208,6 +219,17 @@ func c04Edge() []c04Input {
 		mk(c04Cfg{1, 1000, 10}, 1, 1, 1),
 		mk(c04Cfg{3, 1000, 100}, 900, 900, 900, 100, 100, 100, 100),
 		mk(c04Cfg{5, 1000, 0}),
+	}
+	// volume: one report whose encoding is well over 1 MB (batch 100, ~10 kB of perform data per upkeep)
+	for _, batch := range []int{100, 80} {
+		in := c04Input{Cfg: c04Cfg{batch, 5_300_000, 10}}
+		for i := 0; i < 100; i++ {
+			res := genResult(r, genUpkeepID(r, i%3 == 0), 100)
+			res.GasAllocated = uint64(1000 + i)
+			res.PerformData = r.Bytes(9000 + 10*i)
+			in.Agreed = append(in.Agreed, toJCR(res))
+		}
+		out = append(out, in)
 	}
 	// 100 performables that each exceed the limit: exactly 100 reports allowed
 	big := make([]uint64, 100)
